@@ -196,19 +196,41 @@ def httpKeep (h : Head) (is11 : Bool) (known : Bool) : Bool :=
     | none => false
   accepts && (known || is11)
 
+/-- `total_read_` when the header phase of a request is over (it went through the same reads as `httpHeaders`) -/
+def httpTotalAfter (cfg : HttpCfg) : Nat → Nat → HttpReq → HttpSt → Nat
+  | 0, total, _, _ => total
+  | fuel + 1, total, r, st =>
+    match httpFill st with
+    | none => total
+    | some (n, st) =>
+      match hdrLoop cfg (2 * st.rest.length + 2) r st.rest with
+      | .fin _ _ => total + n
+      | .more r =>
+        if total + n > Gen.httpHeaderCap then total + n
+        else httpTotalAfter cfg fuel (total + n) r { st with rest := [] }
+
 def httpStreamFuel (st : HttpSt) : Nat := st.rest.length + (st.segs.map List.length).sum + st.segs.length + 2
 
-/-- one HTTP connection.  `hints`: per answered request, whether the response had a known length. -/
-def httpConn (lim : Limits) (cfg : HttpCfg) : Nat → List Bool → HttpSt → List Outcome
-  | 0, _, _ => [.crash "out of fuel"]
-  | fuel + 1, hints, st =>
-    match httpHeaders cfg (httpStreamFuel st) 0 { env := httpEnv0 cfg } st with
+/-- `total_read_` at the start of the next request's header phase: reset per request (`Gen.httpTotalReadResetPerRequest`,
+regenerated from `async_read_headers` / `reset_all`), else what the previous requests left -/
+def httpNextTotal (cfg : HttpCfg) (t0 : Nat) (st : HttpSt) : Nat :=
+  if Gen.httpTotalReadResetPerRequest then 0
+  else httpTotalAfter cfg (httpStreamFuel st) t0 { env := httpEnv0 cfg } st
+
+/-- one HTTP connection.  `hints`: per answered request, whether the response had a known length; `t0`: the value of
+`total_read_` (the 16 KiB budget of a header section) when the request's header phase starts. -/
+def httpConn (lim : Limits) (cfg : HttpCfg) : Nat → List Bool → Nat → HttpSt → List Outcome
+  | 0, _, _, _ => [.crash "out of fuel"]
+  | fuel + 1, hints, t0, st0 =>
+    match httpHeaders cfg (httpStreamFuel st0) t0 { env := httpEnv0 cfg } st0 with
     | (.done o, _) => [o]
     | (.head h is11, st) =>
       let (o, st) := runRequest lim httpReadSome h st
-      if isApp o && httpKeep h is11 (hints.headD true) then o :: httpConn lim cfg fuel hints.tail st else [o]
+      if isApp o && httpKeep h is11 (hints.headD true) then
+        o :: httpConn lim cfg fuel hints.tail (httpNextTotal cfg t0 st0) st
+      else [o]
 
 def httpRun (lim : Limits) (cfg : HttpCfg) (hints : List Bool) (segs : Segs) : List Outcome :=
-  httpConn lim cfg ((segs.map List.length).sum + 2) hints { segs := segs }
+  httpConn lim cfg ((segs.map List.length).sum + 2) hints 0 { segs := segs }
 
 end Cppcms.C01
